@@ -1,0 +1,87 @@
+//go:build verif
+
+package virtual
+
+// Read-only lock probes for the runtime verification harnesses
+// (property C14). Every probe is TryLock followed by Unlock, so it
+// never blocks and never changes state. A probe must only be called
+// at quiescent points, i.e. when no call is in flight against the
+// object that is being probed.
+
+// VerifLockProbeDirectory reports whether the mutex of a directory
+// created by NewInMemoryPrepopulatedDirectory() is currently free.
+// known is false if d is not such a directory.
+func VerifLockProbeDirectory(d Directory) (free, known bool) {
+	i, ok := d.(*inMemoryPrepopulatedDirectory)
+	if !ok {
+		return false, false
+	}
+	if !i.lock.TryLock() {
+		return false, true
+	}
+	i.lock.Unlock()
+	return true, true
+}
+
+func verifLockProbeUnwrapLeaf(l any) *fileBackedFile {
+	for {
+		switch v := l.(type) {
+		case *fileBackedFile:
+			return v
+		case *nfsStatefulLinkableLeaf:
+			l = v.LinkableLeaf
+		case *nfsStatelessLinkableLeaf:
+			l = v.LinkableLeaf
+		case *nfsResolvableLinkableLeaf:
+			l = v.LinkableLeaf
+		case *nfsResolvableLeaf:
+			l = v.Leaf
+		case *fuseStatefulLinkableLeaf:
+			l = v.LinkableLeaf
+		case *fuseStatelessLinkableLeaf:
+			l = v.LinkableLeaf
+		case *fuseStatelessLeaf:
+			l = v.Leaf
+		default:
+			return nil
+		}
+	}
+}
+
+// VerifLockProbeLeaf reports whether the read-write lock of a file
+// created by NewPoolBackedFileAllocator() (possibly wrapped by one of
+// the handle allocators) is currently free, i.e. neither held for
+// reading nor for writing. known is false for other kinds of leaves.
+func VerifLockProbeLeaf(l Leaf) (free, known bool) {
+	f := verifLockProbeUnwrapLeaf(l)
+	if f == nil {
+		return false, false
+	}
+	if !f.lock.TryLock() {
+		return false, true
+	}
+	f.lock.Unlock()
+	return true, true
+}
+
+// VerifLockProbeNFSHandleAllocator reports whether the lock of the
+// pool of handles shared by all nodes created through an
+// NFSStatefulHandleAllocator is currently free.
+func VerifLockProbeNFSHandleAllocator(hr *NFSStatefulHandleAllocator) bool {
+	if !hr.pool.lock.TryLock() {
+		return false
+	}
+	hr.pool.lock.Unlock()
+	return true
+}
+
+// VerifLockProbeFUSEHandleAllocator reports whether the lock that
+// protects the list of removal notifiers of a
+// FUSEStatefulHandleAllocator is currently free.
+func VerifLockProbeFUSEHandleAllocator(hr *FUSEStatefulHandleAllocator) bool {
+	if !hr.options.removalNotifiersLock.TryLock() {
+		return false
+	}
+	hr.options.removalNotifiersLock.Unlock()
+	return true
+}
